@@ -4,7 +4,7 @@
 src=$1; name=$2; feat=$3
 wt=/tmp/hannibal-seedconf/$name; export CARGO_TARGET_DIR=/tmp/hannibal-seedconf/target18
 rm -rf $wt /tmp/hannibal-seedconf/demo-$name; mkdir -p /tmp/hannibal-seedconf; git -C /repo worktree add --detach $wt HEAD >/dev/null 2>&1 || { echo "worktree failed"; exit 2; }
-dd=/tmp/hannibal-seedconf/demo-$name; mkdir -p $dd; cp $src/Cargo.toml $src/Cargo.lock $src/demo.rs $dd/; sed -i -E "s|/tmp/seed2?/C18/wt|$wt|" $dd/Cargo.toml
+dd=/tmp/hannibal-seedconf/demo-$name; mkdir -p $dd; cp $src/Cargo.toml $src/Cargo.lock $src/demo.rs $dd/; sed -i -E "s|/tmp/seed[0-9]*/C18/wt|$wt|" $dd/Cargo.toml
 cd $dd; timeout 1200 cargo run --offline >/dev/null 2>&1; clean=$?
 git -C $wt apply $src/patch.diff || { echo "patch does not apply"; git -C /repo worktree remove --force $wt; exit 2; }
 timeout 1200 cargo run --offline >/dev/null 2>&1; patched=$?
